@@ -448,3 +448,72 @@ func runECCHistories() {
 			}
 		})
 }
+
+// runECCLongHistories: counters and generation numbers wrap. Between two ordinary requests the
+// function is called N times with the smallest symbol and degenerate data (all zero / all 0xFF:
+// calls that refresh as little internal state as possible), for N on both sides of 2^8 and 2^16;
+// the last result must equal the reference.
+func runECCLongHistories() {
+	pick := []int{0, 9, 20, 24, 29} // 10x10, 26x26 ... 144x144 and a rectangle: indices into dm.Symbols
+	ns := []int{255, 256, 257, 65535, 65536, 65537}
+	type job struct{ a, b, n, fill int }
+	var jobs []job
+	for _, a := range pick {
+		for _, b := range pick {
+			for _, n := range ns {
+				for fill := 0; fill < 2; fill++ {
+					if chk.Quick() && (a+b+n+fill)%2 == 1 {
+						continue
+					}
+					jobs = append(jobs, job{a, b, n, fill})
+				}
+			}
+		}
+	}
+	mk := func(s dm.Symbol, salt int) []byte {
+		d := make([]byte, s.DataCW)
+		for i := range d {
+			d[i] = byte(i*i*5 + i*9 + salt)
+		}
+		return d
+	}
+	small := dm.Symbols[0]
+	// ONE worker runs all histories one after the other: whatever the function counts is
+	// package-level, and calls made by other workers in between would change the distance between
+	// the two requests
+	chk.Range(fmt.Sprintf("ErrorCorrection_EncodeECC200 LONG call histories (sequential, one worker): [first size][N calls with the smallest symbol and all-zero / all-0xFF data][second size], N in %v (counters and generation numbers wrap at 2^8 and 2^16), 5x5 size pairs (quick: half; %d histories): the last result equals the reference", ns, len(jobs)), 1,
+		func(i int) string { return "all long histories" },
+		func(l *mc.Local, _ int) {
+			for _, j := range jobs {
+				a, b := dm.Symbols[j.a%len(dm.Symbols)], dm.Symbols[j.b%len(dm.Symbols)]
+				name := fmt.Sprintf("long history [%v][%d x smallest symbol, data all %#02x][%v]", a, j.n, j.fill*255, b)
+				cs := rcase{Sub: "eccl", Rows: b.Rows, Cols: b.Cols, Vec: name, Index: j.a, N: j.b}
+				if !eccCompare(l, a, name+" first call", mk(a, 3), cs, false) {
+					return
+				}
+				si, err := libInfo(small)
+				if err != nil {
+					return
+				}
+				filler := make([]byte, small.DataCW)
+				for k := range filler {
+					filler[k] = byte(j.fill * 255)
+				}
+				pm, site := mc.Guard(func() {
+					for k := 0; k < j.n; k++ {
+						if k%4096 == 0 {
+							l.Beat("")
+						}
+						encoder.ErrorCorrection_EncodeECC200(filler, si)
+					}
+				})
+				if pm != "" {
+					chk.Violation("C08/panic/"+site, name+": panic "+pm, cs)
+					return
+				}
+				if !eccCompare(l, b, name+" last call", mk(b, 4), cs, true) {
+					return
+				}
+			}
+		})
+}
